@@ -68,7 +68,7 @@ def print_blocks(nh, nb):
         return bits_of(bytes(out))
     B.append(('b_print_str', 'bit.print_str 2, bv', 'bv', 16, pstr))
     B.append(('b_pad', 'bit.print_as_digit b', 'b', 1, lambda v: bits_of(b'1' if v else b'0')))
-    B.append(('b_padn', 'bit.print_as_digit 8, b8', 'b8', 8, lambda v: bits_of(''.join('1' if (v >> i) & 1 else '0' for i in range(8)).encode())))
+    B.append(('b_padn', 'bit.print_as_digit 8, b8', 'b8', 8, lambda v: bits_of(format(v, '08b').encode())))  # msb first (documented so since fix 404daf0)
     for pre in (0, 1):
         B.append((f'b_hex_uint{pre}', f'bit.print_hex_uint {nb}, bv, {pre}', 'bv', bb, lambda v, pre=pre: bits_of((('0x' if pre else '') + format(v, 'X')).encode())))
         B.append((f'b_hex_int{pre}', f'bit.print_hex_int {nb}, bv, {pre}', 'bv', bb,
